@@ -31,6 +31,30 @@ TSkip == /\ More /\ fin /\ Ln.e # "reset" /\ Consume /\ UNCHANGED <<pid, st, pen
 
 Live == More /\ ~fin /\ ~st.aborted
 
+\* a killed actor may still log the call in which it discovers that it was killed
+TIssueDying == /\ Live /\ Ln.e = "issue" /\ Ln.a \in Actors(P) /\ st.ph[Ln.a] = "dying"
+               /\ Consume /\ UNCHANGED <<pid, st, pend, fin>>
+\* ForcefulKillException reaches the actor: killed by another actor (already dying) or by its kill time, exactly then
+TKilled == /\ Live /\ Ln.e = "killed" /\ Ln.a \in Actors(P)
+           /\ \/ /\ st.ph[Ln.a] \in {"exiting", "dead"} /\ UNCHANGED <<st, pend>>   \* its callbacks ran first
+              \/ /\ st.ph[Ln.a] = "dying" \/ KillDue(st, Ln.a)
+                 /\ LET base == IF st.ph[Ln.a] = "dying" THEN st ELSE KillActor(P, st, Ln.a) IN
+                    /\ st' = Terminate(P, base, Ln.a, "dead")
+                    /\ pend' = (pend \ {Ln.a}) \cup NewlyAnswered(base, st')
+           /\ Consume /\ UNCHANGED <<pid, fin>>
+\* an on_exit callback runs: it must be the next one in reverse registration order; failed is false on a normal end.
+\* (a killed actor runs its callbacks before the ForcefulKillException reaches its code: "killed" may come after)
+TOnExit == /\ Live /\ Ln.e = "onexit" /\ Ln.a \in Actors(P)
+           /\ LET base == IF st.ph[Ln.a] = "exiting" THEN st
+                           ELSE IF st.ph[Ln.a] = "dying" THEN Terminate(P, st, Ln.a, "dead")
+                           ELSE IF KillDue(st, Ln.a) THEN Terminate(P, KillActor(P, st, Ln.a), Ln.a, "dead")
+                           ELSE st IN
+              /\ base.ph[Ln.a] = "exiting" /\ base.oex[Ln.a] # <<>> /\ Head(base.oex[Ln.a]) = Ln.id
+              /\ (base.pres[Ln.a] = "done" => ~Ln.failed)
+              /\ st' = RunOnExit(P, base, Ln.a)
+              /\ pend' = (pend \ (IF st.ph[Ln.a] = "exiting" THEN {} ELSE {Ln.a})) \cup NewlyAnswered(st, st')
+           /\ Consume /\ UNCHANGED <<pid, fin>>
+
 TIssue == /\ Live /\ Ln.e = "issue"
           /\ Ln.a \in Actors(P) /\ st.ph[Ln.a] = "run" /\ st.pc[Ln.a] = Ln.k /\ Cur(P, st, Ln.a).op = Ln.op
           /\ st' = IF IsLocal(P, st, Ln.a) THEN LocalRet(P, st, Ln.a)          \* no simcall: returns at once
@@ -61,6 +85,9 @@ THandle == /\ Live /\ Ln.e = "handle" /\ Ln.a \in Actors(P)
 \* an answer sent by the kernel: either one the semantics already produced, or the completion of a timer that is due
 TAnswer == /\ Live /\ Ln.e = "answer" /\ Ln.a \in Actors(P)
            /\ \/ /\ Ln.a \in pend /\ pend' = pend \ {Ln.a} /\ st' = st
+              \/ /\ Ln.a \notin pend /\ st.ph[Ln.a] = "dying" /\ UNCHANGED <<st, pend>>   \* the activity of a victim ends
+              \/ /\ Ln.a \notin pend /\ KillDue(st, Ln.a) /\ st.ph[Ln.a] = "blocked"         \* kill time of a blocked actor
+                 /\ st' = KillActor(P, st, Ln.a) /\ pend' = pend \cup NewlyAnswered(st, st')
               \/ /\ Ln.a \notin pend /\ CanFire(st, Ln.a)
                  /\ st' = FireTimer(P, st, Ln.a)
                  /\ st'.ph[Ln.a] = "answered"
@@ -78,6 +105,10 @@ TSilentFire == /\ Live
                     /\ st' = FireTimer(P, st, a)
                     /\ st'.ph[a] = "blocked"
                /\ UNCHANGED <<pid, l, pend, fin>>
+\* silent: maestro kills the daemons once only daemons remain
+TSilentDaemonKill == /\ Live /\ OnlyDaemons(P, st) /\ st' = DaemonKill(P, st)
+                     /\ pend' = pend \cup NewlyAnswered(st, st')
+                     /\ UNCHANGED <<pid, l, fin>>
 \* silent: an activity nobody is blocked on completes (asynchronous / detached operations)
 TSilentComplete == /\ Live
                    /\ \E c \in 1..Len(st.act) : CanComplete(st, c) /\ Waiters(P, st, c) = {} /\ st' = Complete(P, st, c)
@@ -112,7 +143,7 @@ TEnd == /\ More /\ ~fin /\ Ln.e = "end"
                  \/ \E a \in Actors(P) : st.ph[a] = "issued" /\ Handle(P, st, a).aborted
         /\ fin' = TRUE /\ Consume /\ UNCHANGED <<pid, st, pend>>
 
-Next == TReset \/ TSkip \/ TIssue \/ THandle \/ TAnswer \/ TSilentFire \/ TSilentComplete \/ TRet \/ TAdv \/ TEnd
+Next == TReset \/ TSkip \/ TIssueDying \/ TKilled \/ TOnExit \/ TIssue \/ THandle \/ TAnswer \/ TSilentFire \/ TSilentComplete \/ TSilentDaemonKill \/ TRet \/ TAdv \/ TEnd
 Spec == Init /\ [][Next]_vars
 
 I_MutexOwnership == fin \/ MutexOwnership(P, st)
